@@ -329,7 +329,18 @@ fn in_process(plan: &Plan) -> Judged {
 					_ => {
 						// drop without close
 						if let Some(t) = slots[i].take() {
+							// sometimes a transaction of the instance outlives the handle by a few
+							// turns (it holds a reference to the store's core, not to the handle):
+							// giving up the handle must still release the directory
+							let outliving = if rng.chance(1, 2) { t.begin().ok() } else { None };
 							drop(t);
+							if outliving.is_some() {
+								j.count("drops_with_live_transaction", 1);
+								for _ in 0..2 {
+									tokio::task::yield_now().await;
+								}
+							}
+							drop(outliving);
 							if holder == Some(i) {
 								holder = None;
 								pending_drop = true;
